@@ -24,6 +24,9 @@ unit length identically.
   P10  scale, translate, rotate about a point = T(p) R T(-p)
   P11  lookat: columns (U,V,Z) = (normalize(Z x up), U x Z, normalize(point-eye)), origin eye
   P12  yaw/pitch/roll constructor = q_yaw(about j) * q_pitch(about i) * q_roll(about k) in half angles
+  P13  compound assignment and mixed scalar operators of LinearSpace2/3, AffineSpace and Quaternion = their binary counterparts
+  P14  slerp end points: slerp(0,a,b) = +-a (hemisphere-corrected), slerp(1,a,b) = b on the spherical branch (weights sin(t th)/sin th and
+       cos(t th) - d sin(t th)/sin th with sin 0 = 0, cos 0 = 1, cos(acos d) = d), = the normalised operands on the nearly-parallel branch
 """
 import re
 
@@ -45,7 +48,8 @@ EXPLANATION = (
     "and the angle from s*dot(a,b)), frame() returns (x, cross(N,x), N) with x a non-vanishing normalised vector orthogonal "
     "to N, and orthogonal() is the Newton step (X + X^-T)/2 whose constant budget and "
     "early-exit threshold bring every singular value in [1/64, 64] within 1e-6 of 1 (interval iteration of s -> (s+1/s)/2). "
-    "Not decided: floating-point rounding beyond those clauses, the interpolation formula of slerp (transcendental), "
+    "The slerp weights are pinned at both end points (t = 0 and t = 1, both branches). "
+    "Not decided: floating-point rounding beyond those clauses, the slerp weights for 0 < t < 1 (transcendental), "
     "the SIMD rcp/rsqrt approximations (C07).")
 
 DRIVER = 'drivers/alg_linalg.cpp'
@@ -53,7 +57,7 @@ DRIVER = 'drivers/alg_linalg.cpp'
 # compiled body contains such an estimate are not exact there and are compared in the RKCOMMON_NO_SIMD configurations only
 SIMD_APPROX_RE = r'llvm\.x86\.(?:sse|avx512)\.(?:rcp|rsqrt)'
 SIMD_APPROX_MAX = 12     # 7 on the pinned tree
-FLOOR = 50
+FLOOR = 51
 SHAPE_DRIVER = 'drivers/c06_shape.cpp'
 NAMED_CONST = {'zero': 0.0, 'one': 1.0, 'two': 2.0, 'ulp': 1.1920929e-07, 'empty': None}
 
